@@ -652,7 +652,11 @@ func (r *FeatureLocal) HandleMessage(message *api.Message) *model.ErrorType {
 		}
 	case model.CmdClassifierTypeWrite:
 		// if there is a write permission check callback set, invoke this instead of directly allowing the write
-		if len(r.writeApprovalCallbacks) > 0 {
+		r.muxResponseCB.Lock()
+		approvalRequired := len(r.writeApprovalCallbacks) > 0
+		r.muxResponseCB.Unlock()
+
+		if approvalRequired {
 			r.addPendingApproval(message)
 			r.processWriteApprovalCallbacks(message)
 		} else {
